@@ -4,9 +4,11 @@
    Model: Config.v  ([load], [interpret], [run_model] = the composition of the run-time components: runner (C08/C12 naming),
    annealing loop (C07, AnnealLoop.anneal_elapsed), explorer initialisation and iterations on the catchment model with its
    randomisation loops (C01/C03/C10, ConfigLoops.v), observers (invariant observer, iteration filter), saver).
-   The theorems are about the code AFTER proposed fixes C19-1 (randomisation loops: panic only when no boundary was found;
-   stop when nothing is left to toggle) and C19-2 (invariant observer skips events without ObjectiveValue); what the loops do
-   BEFORE C19-1 (= Limits.rand_loop, the code in /repo until the fix is committed) is stated at the end.
+   The theorems are about the code with fixes C19-1 (randomisation loops: panic only when no boundary was found; stop when nothing is
+   left to toggle), C19-2 (invariant observer skips events without ObjectiveValue) and the series C19-3 .. C19-13 (NullModel's variable
+   map; trial initialisation of the model at interpretation time reporting load errors, missing tables, panics and a limit that excludes
+   nothing; DecisionVariable checked against the model; negative RunNumber; concurrency slots; output path / EXCEL / profile directory
+   checked by the scenario interpreter).  What the loops did BEFORE C19-1 is stated at the end.
 
    LEVEL: proof, PARTIAL -- the theorems are about the composition of the MODELLED components.  A panic inside code that is not
    transcribed (TOML decoder, logging back-ends, CPU profiler, Excel paths, CSV/JSON encoders) can only be met by the
@@ -33,15 +35,15 @@ Definition C19_rejected_is_error_statement : Prop :=
 Theorem C19_rejected_is_error_load : forall F c, load F c <> Crash.
 Proof. exact load_never_crashes. Qed.
 
-(* the interpreter: PARTIAL -- it loads the catchment data source while it wires the annealer to the model and the saver; if that
-   file loads but lacks a table / column / any action, CoreModel.Initialise panics ([interpret_env_ok] excludes exactly that class
-   of data source, and initial values of the multi-objective dumb model outside RoundFloat's range -- listed finding of C18) *)
+(* the interpreter: PARTIAL.  Since C19-4, -5, -13 the data source is loaded by a TRIAL initialisation whose load errors and panics are
+   reported as interpreter errors, so the data source no longer appears here.  The one hypothesis left, [interpret_env_ok], is the
+   listed finding of C18: initial values of the multi-objective dumb model outside math.RoundFloat's range panic while that model is
+   constructed (an oracle of the environment record, because RoundFloat's range is not modelled). *)
 Theorem C19_rejected_is_error_interpret_partial : forall F T, tables_ok T = true -> forall E l,
   nodupb (map fst (l_annealer_params l)) = true -> nodupb (map fst (l_model_params l)) = true ->
   interpret_env_ok F T E l = true -> interpret F T E l <> Crash.
 Proof. exact interpret_never_crashes. Qed.
 
-(* ... and the full statement is false of the faithful model: a readable data source without its tables *)
 Theorem C19_rejected_is_error_refuted : ~ C19_rejected_is_error_statement.
 Proof. exact rejected_is_error_refuted. Qed.
 
@@ -55,29 +57,38 @@ Definition C19_accepted_runs_statement : Prop :=
     load F c = Done l -> interpret F T E l = Done sc -> choices_ok sc choices ->
     exists summaries, run_model E sc choices T0 a = Completed summaries /\ List.length summaries = Z.to_nat (l_run_number l).
 
-(* PARTIAL: what acceptance does NOT imply is collected in the boolean [run_preconditions E sc] (ConfigSpec.v):
-     the model is not the NullModel;  the single-objective explorer's DecisionVariable exists in the model;
-     a catchment model's data source is a well-formed data set, and a configured limit is attainable at the starting extreme and
-     BINDING (it excludes the opposite extreme);  the output path is usable;  the CPU-profile file can be created;
-     EXCEL output only where Excel exists;  RunNumber / MaximumConcurrentRunNumber below 2^63 (i.e. not negative in the TOML);
-     [no_nl name] (side condition of the reused C12 lemma, not a defect).
-   What acceptance DOES imply is derived: RunNumber >= 1, the reporting modulo >= 1 (iteration filter), every typed parameter getter
-   finds its value (C18), the annealer is a real one, the observers' type assertions hold on every event of the modelled explorers.
+(* what acceptance gives, DERIVED from the loader's and the interpreter's checks (nothing of this is assumed any more):
+   1 <= RunNumber < 2^63, reporting modulo >= 1;  a single-objective explorer's DecisionVariable is offered by the model;  a catchment
+   model's data source is a loaded data set and a configured limit is BINDING (the opposite extreme violates it);  the OutputPath is not an
+   existing non-directory;  EXCEL output only where Excel can exist;  the directory of a CpuProfilePath exists *)
+Theorem C19_acceptance_gives_positive_counts : forall F c l, facts_ok F = true -> load F c = Done l ->
+  (1 <= l_run_number l < two63)%Z /\ (1 <= l_report_every l)%Z.
+Proof. exact accepted_counts. Qed.
+
+Theorem C19_acceptance_gives_shape : forall F T E l sc, interpret F T E l = Done sc -> accepted_shape E l sc.
+Proof. exact interpret_done. Qed.
+
+(* PARTIAL: the remaining hypotheses, the boolean [run_preconditions E sc] (ConfigSpec.v), say NOTHING about the configuration any more:
+     - run-time environment: the saver can create its directory and files ([e_out_usable]); the profile file can be created ([e_profile_ok]);
+     - a catchment model's constants, as derived from the loaded tables, form a well-formed data set ([wf_dataset], evaluated by computation
+       on every data set the harness loads: the derivation itself is not verified) and the optimisers' starting extreme satisfies the limit
+       ([limit_attainable]; as in C03 -- without it the proof has no valid state to start from; no failing run is known);
+     - [no_nl name]: side condition of the reused C12 naming lemma, not a defect.
    Random inputs are universally quantified; the pick lists are boundedly fair ([choices_ok]). *)
 Theorem C19_accepted_runs_partial : forall F T, facts_ok F = true -> tables_ok T = true ->
   forall E c l sc choices T0 a,
   load F c = Done l -> interpret F T E l = Done sc ->
-  nodupb (map fst (l_annealer_params l)) = true -> nodupb (map fst (l_model_params l)) = true ->
   run_preconditions E sc = true -> choices_ok sc choices ->
   exists summaries, run_model E sc choices T0 a = Completed summaries /\ List.length summaries = Z.to_nat (l_run_number l)
                     /\ (1 <= l_run_number l)%Z.
 Proof. exact accepted_runs. Qed.
 
-(* the pieces it is composed of *)
-Theorem C19_acceptance_gives_positive_counts : forall F c l, facts_ok F = true -> load F c = Done l ->
-  (1 <= l_run_number l)%Z /\ (1 <= l_report_every l)%Z.
-Proof. exact accepted_counts. Qed.
+(* ... and the full statement stays false of the faithful model for the run-time environment alone: an output directory that cannot be
+   created when the first run finishes makes the saver panic (confirmed on the real code: hazard class output-directory-cannot-be-created) *)
+Theorem C19_accepted_runs_refuted : ~ C19_accepted_runs_statement.
+Proof. exact accepted_runs_refuted. Qed.
 
+(* the pieces *)
 Theorem C19_observers_never_panic : forall sc e cur, (1 <= s_modulo sc)%Z -> observers_ok sc e cur = true.
 Proof. exact observers_fine. Qed.
 
@@ -94,8 +105,8 @@ Theorem C19_binding_limit_never_panics : forall d, wf_dataset d = true -> forall
   rand_loop_fx d (loop_dir k) picks (nactions d) true s <> LPanic.
 Proof. exact binding_no_panic. Qed.
 
-Theorem C19_every_run_completes : forall E sc r ch T0 a,
-  (1 <= s_modulo sc)%Z -> run_preconditions E sc = true ->
+Theorem C19_every_run_completes : forall E l sc r ch T0 a,
+  (1 <= s_modulo sc)%Z -> accepted_shape E l sc -> run_preconditions E sc = true ->
   match dataset_of sc with Some d => choice_ok d ch | None => True end ->
   exists f, run_one E sc r ch T0 a = R1Files f.
 Proof. exact run_one_completes. Qed.
@@ -124,7 +135,6 @@ Example C19_example_runs :
     = VRun (Completed ["P-Summary.json"]).
 Proof. vm_compute. split; reflexivity. Qed.
 
-(* ---- rejection examples: errors, not panics ---- *)
 Example C19_example_rejections :
   pipeline ref_facts ref_tables ref_env (with_runs 0 (kp_catchment ex_limit)) (fun _ => ref_choice)
     = VLoadErrors [EMandatory "Scenario.RunNumber"]
@@ -137,42 +147,46 @@ Example C19_example_rejections :
 Proof. vm_compute. repeat split; reflexivity. Qed.
 
 (* ================================================================================================================ *)
-(* 3. the full statement is false of the faithful model: one witness per missing precondition (each confirmed on the  *)
-(*    real code by harness/c19.go -- the hazard class of the generated documents is named on the right)              *)
+(* 3. regression cases: the refutation witnesses of the first version of this file (one per listed finding), now that  *)
+(*    the series C19-3 .. C19-13 is part of the model: every one is either rejected through an error or runs          *)
 (* ================================================================================================================ *)
-Definition accepted_but (c : config) (r : run_result) : Prop :=
-  pipeline ref_facts ref_tables ref_env c (fun _ => ref_choice) = VRun r.
+Definition verdict_of (c : config) : verdict := pipeline ref_facts ref_tables ref_env c (fun _ => ref_choice).
 
-Example C19_witness_null_model :                                                        (* null-model *)
-  accepted_but (doc "P" "Suppapitnarm" [("MaximumIterations", VInt 3)] "NullModel" []) RunCrash.
-Proof. vm_compute. reflexivity. Qed.
-
-Example C19_witness_decision_variable :                                                 (* decision-variable-not-offered *)
-  accepted_but (doc "P" "Kirkpatrick" [("MaximumIterations", VInt 3)] "CatchmentModel" [("DataSourcePath", VString "data.csv")]) RunCrash
-  /\ accepted_but (doc "P" "Kirkpatrick" [("DecisionVariable", VString "Bogus")] "MultiObjectiveDumbModel" []) RunCrash.
+Example C19_regression_null_model :                                                    (* C19-3: the run completes *)
+  verdict_of (doc "P" "Suppapitnarm" [("MaximumIterations", VInt 3)] "NullModel" []) = VRun (Completed ["P-Summary.csv"])
+  /\ verdict_of (doc "P" "Kirkpatrick" [("MaximumIterations", VInt 3)] "NullModel" []) = VRun (Completed ["P-Summary.csv"]).
 Proof. vm_compute. split; reflexivity. Qed.
 
-Example C19_witness_data_source :                                                       (* data-source-absent / -not-a-data-set *)
-  accepted_but (supp_catchment []) RunCrash
-  /\ accepted_but (supp_catchment [("DataSourcePath", VString "notes.txt")]) RunCrash.
+Example C19_regression_data_source :                                                   (* C19-4, C19-5 / C19-13: interpreter errors *)
+  verdict_of (supp_catchment []) = VInterpretErrors [EModelData]
+  /\ verdict_of (supp_catchment [("DataSourcePath", VString "notes.txt")]) = VInterpretErrors [EModelData]
+  /\ verdict_of (kp_catchment [("DataSourcePath", VString "broken.csv")]) = VInterpretErrors [EModelData].
+Proof. vm_compute. repeat split; reflexivity. Qed.
+
+Example C19_regression_decision_variable :                                             (* C19-6 *)
+  verdict_of (doc "P" "Kirkpatrick" [("MaximumIterations", VInt 3)] "CatchmentModel" [("DataSourcePath", VString "data.csv")])
+    = VInterpretErrors [EDecisionVariable]
+  /\ verdict_of (doc "P" "Kirkpatrick" [("DecisionVariable", VString "Bogus")] "MultiObjectiveDumbModel" []) = VInterpretErrors [EDecisionVariable].
 Proof. vm_compute. split; reflexivity. Qed.
 
-Example C19_witness_limit_not_binding :                                                 (* limit-not-binding *)
-  accepted_but (kp_catchment [("DataSourcePath", VString "data.csv"); ("MaximumImplementationCost", VFloat 5000)]) RunCrash
-  /\ accepted_but (supp_catchment [("DataSourcePath", VString "data.csv"); ("MaximumSedimentProduction", VFloat 5000)]) RunCrash.
+Example C19_regression_run_counts :                                                    (* C19-7: load error; C19-8: -1 means no limit *)
+  verdict_of (with_runs (-1) (kp_catchment ex_limit)) = VLoadErrors [EMandatory "Scenario.RunNumber"]
+  /\ verdict_of (with_concurrent (-1) (with_runs 2 (kp_catchment ex_limit)))
+     = VRun (Completed ["P(1_of_2)-Summary.csv"; "P(2_of_2)-Summary.csv"]).
 Proof. vm_compute. split; reflexivity. Qed.
 
-Example C19_witness_excel : accepted_but (with_output "out" (Value "EXCEL") (kp_catchment ex_limit)) RunCrash.   (* excel-output-without-excel *)
-Proof. vm_compute. reflexivity. Qed.
+Example C19_regression_scenario_checks :                                               (* C19-9, C19-10, C19-11 *)
+  verdict_of (with_output "file" Absent (kp_catchment ex_limit)) = VInterpretErrors [EOutputPath]
+  /\ verdict_of (with_output "out" (Value "EXCEL") (kp_catchment ex_limit)) = VInterpretErrors [EExcel]
+  /\ verdict_of (with_profile "nowhere/prof" (kp_catchment ex_limit)) = VInterpretErrors [EProfilePath].
+Proof. vm_compute. repeat split; reflexivity. Qed.
 
-Example C19_witness_negative_run_number : accepted_but (with_runs (-1) (kp_catchment ex_limit)) RunCrash.        (* negative-run-number *)
-Proof. vm_compute. reflexivity. Qed.
-
-Example C19_witness_output_path : accepted_but (with_output "file" Absent (kp_catchment ex_limit)) RunCrash.     (* output-path-not-a-directory *)
-Proof. vm_compute. reflexivity. Qed.
-
-Theorem C19_accepted_runs_refuted : ~ C19_accepted_runs_statement.
-Proof. exact accepted_runs_refuted. Qed.
+Example C19_regression_limit_not_binding :                                             (* C19-12 *)
+  verdict_of (kp_catchment [("DataSourcePath", VString "data.csv"); ("MaximumImplementationCost", VFloat 5000)])
+    = VInterpretErrors [ELimitNotBinding]
+  /\ verdict_of (supp_catchment [("DataSourcePath", VString "data.csv"); ("MaximumSedimentProduction", VFloat 5000)])
+    = VInterpretErrors [ELimitNotBinding].
+Proof. vm_compute. split; reflexivity. Qed.
 
 (* ================================================================================================================ *)
 (* 4. D14b: what the randomisation loops do in /repo BEFORE fix C19-1 (ConfigLoops.rand_loop_old; = Limits.rand_loop until the Coq patch of C19-1 is applied)        *)
@@ -204,13 +218,14 @@ Proof. exact fixed_loop_returns. Qed.
 Print Assumptions C19_rejected_is_error_load.
 Print Assumptions C19_rejected_is_error_interpret_partial.
 Print Assumptions C19_rejected_is_error_refuted.
-Print Assumptions C19_accepted_runs_partial.
 Print Assumptions C19_acceptance_gives_positive_counts.
+Print Assumptions C19_acceptance_gives_shape.
+Print Assumptions C19_accepted_runs_partial.
+Print Assumptions C19_accepted_runs_refuted.
 Print Assumptions C19_observers_never_panic.
 Print Assumptions C19_loop_keeps_the_limit.
 Print Assumptions C19_loop_ends_under_fair_picks.
 Print Assumptions C19_binding_limit_never_panics.
 Print Assumptions C19_every_run_completes.
-Print Assumptions C19_accepted_runs_refuted.
 Print Assumptions C19_unfixed_loop_spins.
 Print Assumptions C19_fixed_loop_returns.
